@@ -21,9 +21,10 @@ import XlModel.Lemmas.Cfb
 import XlModel.Lemmas.CfbRead
 import XlModel.Lemmas.CfbRW
 import XlModel.Lemmas.Crypt
+import XlModel.Lemmas.CryptFull
 
 namespace XlModel.Props.C13
-open XlModel.Cfb XlModel.Crypt XlModel.Facts.C13
+open XlModel.Cfb XlModel.Crypt XlModel.CryptFull XlModel.Facts.C13
 
 /-- *every package size*: `locate`'s FAT/DIFAT loop terminates for every list of stream sizes
 (the model's fuel `sectors + 2` is never exhausted). -/
@@ -303,6 +304,60 @@ theorem open_gates_access (i : OpenIn) :
     (i.decOk = true → i.zipOk = false → i.pwGiven = false → openReader i = (false, some .zipErr)) := by
   obtain ⟨o, d, z, p, r, q⟩ := i
   cases o <;> cases d <;> cases z <;> cases p <;> cases r <;> cases q <;> simp [openReader]
+
+/-- **Encrypt followed by Decrypt returns the original bytes** — the whole pipeline as one theorem.
+For every keyed block cipher that is a length-preserving bijection on 16-byte blocks under each key,
+every hash with 20-byte digests, every 16-byte salt and verifier input, every password the API
+accepts (1..255 UTF-8 bytes, any Unicode scalar sequence) and every plaintext below 2^64 bytes:
+`Encrypt` succeeds — password guard, key derivation (50000 rounds over the UTF-16LE password, 128-bit
+cut), EncryptionInfo construction (fixed header fields, provider name, salt, encrypted verifier and
+verifier hash), 8-byte length prefix and zero-padded ECB blocks, compound-file container — and
+`Decrypt` with the same password — reference reader, stream lookup, `encryptionMechanism` and every
+guard of `standardDecrypt`, salt and key size read back from the descriptor, the same key
+derivation, block loop, cut to the recorded length — returns exactly the plaintext. -/
+theorem encrypt_decrypt (kc : KCipher) (hkc : ∀ k, (kc k).Lawful) (H : List Nat → List Nat)
+    (hlen : ∀ x, (H x).length = 20) (salt vin : List Nat) (hs : salt.length = 16) (hv : vin.length = 16)
+    (pw : List Char) (hp : 1 ≤ utf8Len pw ∧ utf8Len pw ≤ Facts.MaxFieldLength)
+    (raw : List Nat) (hn : raw.length < 2 ^ 64) :
+    ∃ img, encryptFull kc H salt vin pw raw = .ok img ∧ decryptFull kc H img pw = .ok raw :=
+  decrypt_encrypt_full kc hkc H hlen salt vin hs hv pw hp raw hn
+
+/-- passwords outside 1..255 UTF-8 bytes are rejected by `Encrypt` before anything is written -/
+theorem encrypt_rejects_bad_password_length (kc : KCipher) (H : List Nat → List Nat) (salt vin : List Nat)
+    (pw : List Char) (raw : List Nat) (h : utf8Len pw = 0 ∨ utf8Len pw > Facts.MaxFieldLength) :
+    encryptFull kc H salt vin pw raw = .error .pwLen := by
+  unfold encryptFull; rw [if_pos h]
+
+/-- **opens with that password to the same content; any other password is rejected** (on top of
+`encrypt_decrypt` and the `OpenReader` mapping). With the right password `OpenReader` hands
+`zip.NewReader` exactly the bytes that were protected, so it returns a file iff opening the
+unprotected bytes does. With any password `pw'` for which decryption does not yield a zip package —
+the cryptographic assumption for `pw' ≠ pw`: a different key produces no valid package (`hsep`) —
+no file is returned, whatever the later stages would do. -/
+theorem protected_workbook_opens_only_with_password (kc : KCipher) (hkc : ∀ k, (kc k).Lawful)
+    (H : List Nat → List Nat) (hlen : ∀ x, (H x).length = 20) (salt vin : List Nat)
+    (hs : salt.length = 16) (hv : vin.length = 16) (pw : List Char)
+    (hp : 1 ≤ utf8Len pw ∧ utf8Len pw ≤ Facts.MaxFieldLength) (raw : List Nat) (hn : raw.length < 2 ^ 64)
+    (isZip : List Nat → Bool) :
+    ∃ img, encryptFull kc H salt vin pw raw = .ok img ∧
+      (∀ r q, (openReader ⟨true, decryptFull kc H img pw matches .ok _,
+                  (match decryptFull kc H img pw with | .ok out => isZip out | _ => false), true, r, q⟩).1
+              = (openReader ⟨false, true, isZip raw, false, r, q⟩).1) ∧
+      (∀ pw' g r q, (∀ out, decryptFull kc H img pw' = .ok out → isZip out = false) →
+        (openReader ⟨true, decryptFull kc H img pw' matches .ok _,
+            (match decryptFull kc H img pw' with | .ok out => isZip out | _ => false), g, r, q⟩).1 = false) := by
+  obtain ⟨img, he, hd⟩ := decrypt_encrypt_full kc hkc H hlen salt vin hs hv pw hp raw hn
+  refine ⟨img, he, ?_, ?_⟩
+  · intro r q
+    rw [hd]
+    cases hz : isZip raw <;> cases r <;> cases q <;> simp [openReader, hz]
+  · intro pw' g r q hsep
+    cases hx : decryptFull kc H img pw' with
+    | ok out =>
+      have := hsep out hx
+      simp [openReader, this]
+    | err => simp [openReader]
+    | panic => simp [openReader]
 
 /-- the hypotheses of `agile_encrypt_decrypt` are satisfiable -/
 theorem cbc_lawful_exists : ∃ c : Cbc, c.Lawful := ⟨⟨fun _ x => x, fun _ x => x⟩, fun _ _ _ => ⟨rfl, rfl⟩⟩
